@@ -71,7 +71,11 @@ func ProcessDeposits(ctx context.Context, spec *common.Spec, epc *common.EpochsC
 	if err != nil {
 		return err
 	}
-	// state deposit count and deposit index are trusted not to underflow
+	// The spec computes deposit_count - eth1_deposit_index on checked uint64: a state whose voted-in
+	// deposit count lies below the deposit index makes every block invalid. Do not let the subtraction wrap.
+	if eth1Data.DepositCount < depIndex {
+		return errors.New("state deposit count is lower than the deposit index")
+	}
 	expectedInputCount := uint64(eth1Data.DepositCount - depIndex)
 	if expectedInputCount > uint64(spec.MAX_DEPOSITS) {
 		expectedInputCount = uint64(spec.MAX_DEPOSITS)
